@@ -390,8 +390,91 @@ fn run_borrowed(c: &TotalCase) -> Vec<Obs> {
     v
 }
 
+/// `!!binary` scalars with well-formed, padded, over-padded, truncated and whitespace-broken payloads
+fn binary_doc(rng: &mut Rng) -> String {
+    const B64: &[u8] = b"ABCDEFGHIJKLMNOPQRSTUVWXYZabcdefghijklmnopqrstuvwxyz0123456789+/";
+    fn payload(rng: &mut Rng) -> String {
+        match rng.below(8) {
+            0 => (*rng.pick(&["", "=", "==", "===", "====", "=====", "========", "A===", "A=======", "AA==", "AAA=", "TQ==TQ==", "TWFu", "TWE=", "TQ", "=TQ=", "T=Q="])).to_string(),
+            1 => "=".repeat(rng.below(20)),
+            _ => {
+                let n = rng.below(14);
+                let mut s = String::new();
+                for _ in 0..n {
+                    match rng.below(10) {
+                        0 | 1 => s.push('='),
+                        2 => s.push(*rng.pick(&[' ', '\t', '-', '_', '.', 'é'])),
+                        _ => s.push(B64[rng.below(64)] as char),
+                    }
+                }
+                s
+            }
+        }
+    }
+    let p = payload(rng);
+    let scalar = match rng.below(6) {
+        0 => format!("!!binary \"{p}\""),
+        1 => format!("!!binary '{p}'"),
+        2 => {
+            // block scalar: the payload split over lines
+            let mid = p.len() / 2;
+            let (a, b) = if p.is_char_boundary(mid) { p.split_at(mid) } else { (p.as_str(), "") };
+            format!("!!binary |\n  {a}\n  {b}\n")
+        }
+        3 => format!("!<tag:yaml.org,2002:binary> {p}"),
+        _ => format!("!!binary {p}"),
+    };
+    match rng.below(5) {
+        0 => format!("{scalar}\n"),
+        1 => format!("- {scalar}\n- {}\n", if scalar.contains('\n') { "x".to_string() } else { scalar.clone() }),
+        2 => format!("k: {scalar}\n"),
+        3 => format!("c: {scalar}\nname: x\nn: 1\n"),
+        _ => format!("[{}]\n", if scalar.contains('\n') { format!("!!binary {}", payload(rng)) } else { scalar.clone() }),
+    }
+}
+
+/// documents for the validated struct: failing fields with and without a YAML key that maps back
+fn validation_doc(rng: &mut Rng) -> String {
+    let mut s = String::new();
+    let name = *rng.pick(&["a", "''", "\"\"", "&n ''", "héllo"]);
+    let n = *rng.pick(&["1", "5000", "0x7fffffff", "-1"]);
+    let mut lines = vec![format!("name: {name}"), format!("n: {n}")];
+    if rng.chance(2, 3) {
+        lines.push(format!("zzz: {}", rng.pick(&["ok", "much too long", "&t toolong", "\"long\\e[31mred\"", "*n"])));
+    }
+    if rng.chance(1, 3) {
+        lines.push("list: [1, 2]".to_string());
+    }
+    if rng.chance(1, 4) {
+        lines.push(format!("Title: {}", rng.pick(&["x", "another long one"])));
+    }
+    // any order
+    for i in (1..lines.len()).rev() {
+        let j = rng.below(i + 1);
+        lines.swap(i, j);
+    }
+    for l in &lines {
+        s.push_str(l);
+        s.push('\n');
+    }
+    if rng.chance(1, 3) {
+        s.push_str("---\nname: b\nn: 2\nzzz: second document too long\n");
+    }
+    s
+}
+
+struct SourceGuard;
+impl Drop for SourceGuard {
+    fn drop(&mut self) {
+        lab::set_render_source(None);
+    }
+}
+
 pub fn exec(c: &TotalCase, st: &mut Stats) -> Vec<Viol> {
     let mut out = Vec::new();
+    // every returned error is also turned into a miette report over the delivered text
+    lab::set_render_source(Some(String::from_utf8_lossy(&c.bytes.0).into_owned()));
+    let _source = SourceGuard;
     let mut obs = match c.target {
         T01::Fam(t) => crate::with_target!(t, run_owned(c, st)),
         T01::DeepSeq => run_owned::<L>(c, st),
@@ -742,7 +825,17 @@ pub fn gen_case(tier: Tier, seed: u64, idx: u64) -> Case {
         _ => Target::Json,
     };
     let mut origin = Vec::new();
-    let text: String = match rng.below(12) {
+    let pick = rng.below(15);
+    // `!!binary` payloads go to the targets that decode them, validation documents to the validated struct
+    let (target, fam) = match pick {
+        12 => {
+            let t = *rng.pick(&[T01::Bytes, T01::Fam(Target::Json), T01::Fam(Target::Str), T01::Fam(Target::VecS), T01::Fam(Target::Map)]);
+            (t, if let T01::Fam(f) = t { f } else { Target::Json })
+        }
+        13 => (T01::Fam(Target::Cfg), Target::Cfg),
+        _ => (target, fam),
+    };
+    let text: String = match pick {
         0 | 1 | 2 | 3 => {
             origin.push("doc".to_string());
             wl::gen_doc(fam, &mut rng)
@@ -782,6 +875,14 @@ pub fn gen_case(tier: Tier, seed: u64, idx: u64) -> Case {
                 }
                 s
             }
+        }
+        12 => {
+            origin.push("binary".to_string());
+            binary_doc(&mut rng)
+        }
+        13 => {
+            origin.push("validation".to_string());
+            validation_doc(&mut rng)
         }
         _ => {
             origin.push("mutated".to_string());
